@@ -58,6 +58,7 @@ struct Client {
 
 	Client(RunResult &r, const TableModel &m, const mtbl_source *s, const mfmt::DFile *d, const std::string &tag = "");
 	Bytes resolve(const std::string &tok, const ClientSlot *s);
+	void query_pair(int kindA, const Bytes &a0, const Bytes &a1, int kindB, const Bytes &b0, const Bytes &b1, size_t opi, uint64_t pattern);
 	bool op(const Op &o, size_t opi);	// true if the op was a client op
 	void close_all();
 	void query(int kind, const Bytes &k0, const Bytes &k1, size_t opi);
